@@ -159,6 +159,39 @@ func callableEnum() {
 			}
 		}
 	}
+	// "only a panic raised by the called function itself propagates": a function that panics with
+	// each of a list of values (error, runtime error, reflect's own panic types, string, struct,
+	// nil pointer ...) x with / without a results option: the SAME value must come out of Call
+	for pi, pv := range callablePanicValues() {
+		for _, withResults := range []bool{false, true} {
+			n++
+			calls := 0
+			fn := func(a int) int { calls++; panic(pv) }
+			var out int
+			opts := []CallOption{CallArgs(pi)}
+			if withResults {
+				opts = append(opts, CallResults(&out))
+			}
+			var got any
+			var err error
+			returned := false
+			func() {
+				defer func() { got = recover() }()
+				err = Call(NewCallable(fn), opts...)
+				returned = true
+			}()
+			switch {
+			case returned:
+				report("panic-swallowed: the called function panicked with %T (%v) but Call returned %v", pv, pv, err)
+			case calls != 1:
+				report("not-called-once: panicking function called %d times", calls)
+			case !callableSamePanic(got, pv):
+				report("panic-changed: the called function panicked with %T (%v), Call panicked with %T (%v)", pv, pv, got, got)
+			case out != 0:
+				report("targets-touched: result target written although the function panicked")
+			}
+		}
+	}
 	// a refused Call followed by a Call that omits an option kind: nothing of the first may be
 	// visible in the second (state kept between calls), for every (refused, next) pair
 	n += callablePairs(funcs, rec, report)
@@ -287,6 +320,42 @@ func callableMutCase(fn any, fi int, rec *cRec, old []any, pos int, nv any) stri
 		return fmt.Sprintf("accepted-invalid: %s", desc())
 	}
 	return fmt.Sprintf("wrong-arguments: %s: called with %s, neither the list given to CallArgs nor the list at the time of Call", desc(), callableShow(got))
+}
+
+type callablePanicStruct struct{ N int }
+
+func callablePanicValues() []any {
+	var nilMap map[string]int
+	runtimeErr := func() (r any) {
+		defer func() { r = recover() }()
+		nilMap["x"] = 1
+		return nil
+	}()
+	reflectValueErr := func() (r any) {
+		defer func() { r = recover() }()
+		reflect.ValueOf(1).Len()
+		return nil
+	}()
+	reflectStringPanic := func() (r any) {
+		defer func() { r = recover() }()
+		reflect.ValueOf(func(int) {}).Call(nil)
+		return nil
+	}()
+	return []any{"a string", cErr, fmt.Errorf("wrapped: %w", cErr), runtimeErr, reflectValueErr, reflectStringPanic,
+		callablePanicStruct{7}, &callablePanicStruct{8}, 42, (*int)(nil), FatalError(cErr)}
+}
+
+func callableSamePanic(got, want any) bool {
+	if got == nil || want == nil {
+		return got == nil && want == nil
+	}
+	if reflect.TypeOf(got) != reflect.TypeOf(want) {
+		return false
+	}
+	if reflect.TypeOf(got).Comparable() {
+		return got == want
+	}
+	return reflect.DeepEqual(got, want)
 }
 
 type callableNotFunc struct{}
